@@ -8,7 +8,7 @@
 From Coq Require Import List Arith Bool Lia Permutation.
 Import ListNotations.
 From RG Require Import Model.WalkPar Spec.WalkParSpec Proofs.WalkParBase Proofs.WalkParVariant Proofs.WalkParSafe
-  Proofs.WalkParLive.
+  Proofs.WalkParLive Proofs.WalkParFair.
 
 (* 1. the safety invariant holds in every reachable state: deque/pc vectors aligned; a worker never
       steals from itself; a worker past a failed own pop has an empty deque; conservation
@@ -112,6 +112,31 @@ Theorem can_always_finish : forall resp n f s, reach resp (init n f) s ->
 Proof. exact can_always_finish_proof. Qed.
 Print Assumptions can_always_finish.
 
+(* 8. TERMINATION UNDER FAIRNESS.  An infinite execution (every step of the schedule sigma enabled, tau the
+      states passed) cannot be fair: if every worker that has not exited is scheduled again (weak fairness
+      of the thread scheduler) and steal attempts on non-empty deques fail only finitely often (crossbeam's
+      Steal::Retry needs a concurrent operation on the same deque), the execution is finite.  And an execution
+      can only end -- no step enabled -- when every worker has exited (stuck_means_done).  So every fair
+      execution reaches the state in which WalkParallel::visit's scope joins all workers. *)
+Theorem fair_executions_are_finite : forall resp n f sigma tau,
+  execution resp (init n f) sigma tau -> sched_fair sigma tau -> steal_fair sigma tau -> False.
+Proof. exact fair_executions_are_finite_proof. Qed.
+Print Assumptions fair_executions_are_finite.
+
+Theorem stuck_means_done : forall resp s, (forall c, step resp s c = None) -> all_exited s.
+Proof. exact stuck_means_done_proof. Qed.
+Print Assumptions stuck_means_done.
+
+(* fairness is needed: a reachable state from which worker 1 can spin through its idle loop forever
+   (three steps lead back to the same state) while worker 0, which holds the root, is never scheduled *)
+Example unfair_spin :
+  exists s, reach (fun _ => WContinue) (init 2 [Node 0 []]) s /\ ~ all_exited s
+            /\ run (fun _ => WContinue) s [Own 1; Own 1; Own 1] = Some s.
+Proof.
+  eexists. split; [exists [Own 0; Own 1; Own 1; Own 1; Own 1]; vm_compute; reflexivity|].
+  split; [|vm_compute; reflexivity]. intros A. inversion A as [|? ? E _]. discriminate E.
+Qed.
+
 (* the comment in get_work ("if deactivate_worker() returns 0 ... there is no more work left at all")
    does not hold: a reachable state in which worker 0 has seen the counter reach 0 and is about to
    broadcast Quit while worker 1 holds a stolen, unvisited entry in its hand.  By theorems 1-2 this
@@ -150,3 +175,5 @@ Check variant : forall resp s c s', length (deq s) = length (pcs s) -> step resp
       /\ same_but_pc (worker_of c) s s').
 Check can_always_finish : forall resp n f s, reach resp (init n f) s ->
   exists cs s', run resp s cs = Some s' /\ all_exited s'.
+Check fair_executions_are_finite : forall resp n f sigma tau,
+  execution resp (init n f) sigma tau -> sched_fair sigma tau -> steal_fair sigma tau -> False.
